@@ -2,6 +2,7 @@
   C19 — replicas are coordinated independently and fail independently.
 -/
 import Kvass.Pins.Coord
+import Kvass.Pins.K8s
 import Kvass.Props.C01
 import Kvass.Props.C04
 
